@@ -607,9 +607,13 @@ def d_rules(P, E, H):
             continue
         # the latest-value cell = the lock cell whose content reaches sink_next in an emitting closure
         takers = []
-        for b in P.descendants(rb):
-            if b.id in P.absorbed:
+        troot = H.type_root(rb)
+        scope_b = list(P.descendants(rb)) + [x for x in P.bodies.values() if x.kind == "closure" and H.type_root(x) == troot]
+        seen_b = set()
+        for b in scope_b:
+            if b.id in P.absorbed or b.id in seen_b:
                 continue
+            seen_b.add(b.id)
             acqs, _, _ = b.guards()
             if not acqs:
                 continue
